@@ -254,6 +254,35 @@ def eval_submodel(I, dm, rec, sp, Ts):
     return public_eval(I, rec, Ts)
 
 
+def reused_object_scenario(I):
+    """fit(A) -> predict -> fit(B = A at another scale) -> predict on ONE DailyModel object: the last prediction must be the curve of
+    the stored parameters (what a fresh model restored from to_dict() predicts).  Returns a failure record or None."""
+    from .c12 import meter as _meter
+    from opendsm.eemeter.models.daily.data import DailyBaselineData, DailyReportingData
+    import contextlib, io
+    with contextlib.redirect_stdout(io.StringIO()), contextlib.redirect_stderr(io.StringIO()):
+        m = I["DailyModel"]()
+        # the second building has the first one's weather and load shape at another scale, so that both fits choose the same split
+        dA = _meter(random.Random(11), "both", n=365, noise=0.2)
+        dB = dA.copy()
+        dB["observed"] = dB["observed"] * 3.0 + 20.0
+        m.fit(DailyBaselineData(dA, is_electricity_data=True), ignore_disqualification=True)
+        m.predict(DailyReportingData(dA, is_electricity_data=True), ignore_disqualification=True)
+        m.fit(DailyBaselineData(dB, is_electricity_data=True), ignore_disqualification=True)
+        sweep = pd.DataFrame({"temperature": np.linspace(-20.0, 120.0, 365)}, index=dB.index)
+        got = m.predict(DailyReportingData(sweep, is_electricity_data=True), ignore_disqualification=True)
+        fresh = I["DailyModel"].from_dict(m.to_dict()).predict(DailyReportingData(sweep, is_electricity_data=True), ignore_disqualification=True)
+    a, b = got["predicted"].to_numpy(dtype=float), fresh["predicted"].to_numpy(dtype=float)
+    bad = np.flatnonzero(~((a == b) | (np.isnan(a) & np.isnan(b))))
+    if len(bad):
+        i = int(bad[0])
+        return dict(clause="prediction_is_the_curve_of_the_current_parameters",
+                    detail=dict(T=float(sweep["temperature"].iloc[i]), predicted=float(a[i]), curve_of_stored_parameters=float(b[i]),
+                                rows_differing=int(len(bad))),
+                    history="fit(building A) -> predict -> fit(building B = A at another scale) -> predict, one DailyModel object")
+    return None
+
+
 def run(ctx):
     """ctx: dict(tier, seed, model_ok, budget_scale). Returns result dict."""
     rng = random.Random(ctx["seed"] * 1000003 + 11)
@@ -352,30 +381,10 @@ def run(ctx):
     # ---- the curve a model object predicts is the curve of ITS CURRENT parameters: one object fitted on a building, used, then
     # fitted on a different building must predict the second building with the second fit's coefficients (formula from to_dict())
     try:
-        from .c12 import meter as _meter
-        from opendsm.eemeter.models.daily.data import DailyBaselineData, DailyReportingData
-        import contextlib, io
-        with contextlib.redirect_stdout(io.StringIO()), contextlib.redirect_stderr(io.StringIO()):
-            m = I["DailyModel"]()
-            # the second building has the first one's weather and load shape at another scale, so that both fits choose the same split
-            dA = _meter(random.Random(11), "both", n=365, noise=0.2)
-            dB = dA.copy()
-            dB["observed"] = dB["observed"] * 3.0 + 20.0
-            m.fit(DailyBaselineData(dA, is_electricity_data=True), ignore_disqualification=True)
-            m.predict(DailyReportingData(dA, is_electricity_data=True), ignore_disqualification=True)
-            m.fit(DailyBaselineData(dB, is_electricity_data=True), ignore_disqualification=True)
-            sweep = pd.DataFrame({"temperature": np.linspace(-20.0, 120.0, 365)}, index=dB.index)
-            got = m.predict(DailyReportingData(sweep, is_electricity_data=True), ignore_disqualification=True)
-            fresh = I["DailyModel"].from_dict(m.to_dict()).predict(DailyReportingData(sweep, is_electricity_data=True), ignore_disqualification=True)
-        res["evaluations"] += len(sweep)
-        a, b = got["predicted"].to_numpy(dtype=float), fresh["predicted"].to_numpy(dtype=float)
-        bad = np.flatnonzero(~((a == b) | (np.isnan(a) & np.isnan(b))))
-        if len(bad):
-            i = int(bad[0])
-            res["oracle_failures"].append(dict(clause="prediction_is_the_curve_of_the_current_parameters",
-                                               detail=dict(T=float(sweep["temperature"].iloc[i]), predicted=float(a[i]),
-                                                           curve_of_stored_parameters=float(b[i]), rows_differing=int(len(bad))),
-                                               history="fit(building A) -> predict -> fit(building B = A at another scale) -> predict, one DailyModel object"))
+        f_ = reused_object_scenario(I)
+        res["evaluations"] += 365
+        if f_:
+            res["oracle_failures"].append(f_)
         res["signatures"].add(("reused_object",))
     except Exception as e:  # noqa
         res["hist"]["reused_object_scenario_failed:" + type(e).__name__] = 1
@@ -408,13 +417,16 @@ def replay_finding(entry):
 def replay(path_obj):
     """re-execute a replay file against the current tree; returns list of failures"""
     I = _impl()
+    if path_obj.get("clause") == "prediction_is_the_curve_of_the_current_parameters":
+        f_ = reused_object_scenario(I)
+        return [(f_["clause"], f_["detail"])] if f_ else []
     dm = I["DailyModel"]()
     rec = path_obj["record"]
     x = effective_x(I, rec)
     Ts = temps_for(random.Random(0), rec, x)
     sp = I["DSP"](coefficients=I["MC"](**rec["coefficients"]),
                   temperature_constraints=rec["temperature_constraints"], f_unc=1.0)
-    model, unc, hdd, cdd = dm._predict_submodel(sp, np.array(Ts))
+    model, unc, hdd, cdd = eval_submodel(I, dm, rec, sp, Ts)
     return oracle(rec, x, Ts, model, hdd, cdd)
 
 LEVEL_TEXT = ("Lean 4 theorems over R about the read path of _predict_submodel: the kernels full_model / get_full_model_x / "
